@@ -26,8 +26,14 @@ var orderMaps = map[string][]string{
 	"floats":    {"null", "false", "true", "-1.0", "1e0", "1", "2.0", "1.5", "1e1", `""`, `"a"`, `"ab"`, `"b"`},
 	"boolcase":  {"Null", "false", "True", "-1", "1", "1.0", "2", "1.5", "10", `""`, `"A"`, `"Ab"`, `"a"`}, // spelling order of the booleans contradicts their order
 	"unicode":   {"null", "false", "true", "-1", "1", "1.0", "2", "1.5", "10", `""`, `"é"`, `"é世"`, `"世"`},
+	// spellings of numbers that are not decimal digits: the infinities, and integers beyond 64 bits (2^64 is exact as a float)
+	"infinite": {"null", "false", "true", "-.inf", "1", "1.0", "2", "1.5", ".inf", `""`, `"a"`, `"ab"`, `"b"`},
+	"huge":     {"null", "false", "true", "-18446744073709551616", "1", "1.0", "2", "1.5", "18446744073709551616", `""`, `"a"`, `"ab"`, `"b"`},
 }
-var orderMapNames = []string{"canonical", "extremes", "boolcase", "beyond53", "radix", "floats", "unicode"}
+
+// maps on which a comparison operator may answer with an error (the operator is then not defined there); a wrong answer is still a violation
+var compareMayFail = map[string]bool{"infinite": true, "huge": true}
+var orderMapNames = []string{"canonical", "extremes", "boolcase", "beyond53", "radix", "floats", "unicode", "infinite", "huge"}
 
 func yamlSeq(items []string) string { return "[" + strings.Join(items, ", ") + "]\n" }
 
@@ -211,7 +217,7 @@ func checkC15(rc *Run) error {
 	}
 	type job func()
 	var jobsList []job
-	nmaps := rc.Pick(3, len(orderMapNames))
+	nmaps := rc.Pick(5, len(orderMapNames))
 	for i := range seqs {
 		r := seqs[i]
 		for k := 0; k < nmaps; k++ {
@@ -224,6 +230,12 @@ func checkC15(rc *Run) error {
 			}
 			if k == 2 {
 				name = "boolcase"
+			}
+			if k == 3 && !rc.Thorough() {
+				name = "infinite"
+			}
+			if k == 4 && !rc.Thorough() { // one of the remaining maps, chosen by the seed
+				name = orderMapNames[3+int(uint64(rc.Seed)%uint64(len(orderMapNames)-3))]
 			}
 			nm := name
 			jobsList = append(jobsList, func() { checkSeq(r, nm, false) })
@@ -255,6 +267,9 @@ func checkC15(rc *Run) error {
 					mu.Unlock()
 					if op.want == "err" {
 						continue // not defined: an error or any answer is acceptable
+					}
+					if s == "err" && compareMayFail[nm] {
+						continue
 					}
 					if s != "ok" || len(g) != 1 || g[0] != op.want {
 						report("compare:"+op.sym, nm, fmt.Sprintf("%s %s %s: specification %s, yq %s %v %s", a, op.sym, b, op.want, s, g, e), M{"expr": ".[0] " + op.sym + " .[1]", "input_yaml": doc})
@@ -300,28 +315,41 @@ func checkC15(rc *Run) error {
 	numLits := []struct {
 		lit string
 		v   M
-	}{{"9", M{"k": "num", "int": true, "n": 9, "d": 1}}, {"10", M{"k": "num", "int": true, "n": 10, "d": 1}}, {"1.5", M{"k": "num", "int": false, "n": 3, "d": 2}}, {"-1", M{"k": "num", "int": true, "n": -1, "d": 1}}}
+	}{{"9", M{"k": "num", "int": true, "n": 9, "d": 1}}, {"10", M{"k": "num", "int": true, "n": 10, "d": 1}}, {"1.5", M{"k": "num", "int": false, "n": 3, "d": 2}}, {"-1", M{"k": "num", "int": true, "n": -1, "d": 1}},
+		{"9.5", M{"k": "num", "int": false, "n": 19, "d": 2}}, {"11", M{"k": "num", "int": true, "n": 11, "d": 1}}}
 	strLits := []struct {
 		lit string
 		v   M
 	}{{`"a"`, M{"k": "str", "s": []interface{}{"a"}}}, {`"b"`, M{"k": "str", "s": []interface{}{"b"}}}, {`"ab"`, M{"k": "str", "s": []interface{}{"a", "b"}}},
-		{`"1x"`, M{"k": "str", "s": []interface{}{"1", "x"}}}, {`"9z"`, M{"k": "str", "s": []interface{}{"9", "z"}}}, {`"10"`, M{"k": "str", "s": []interface{}{"1", "0"}}}}
+		{`"1x"`, M{"k": "str", "s": []interface{}{"1", "x"}}}, {`"9z"`, M{"k": "str", "s": []interface{}{"9", "z"}}}, {`"10"`, M{"k": "str", "s": []interface{}{"1", "0"}}},
+		{`"9"`, M{"k": "str", "s": []interface{}{"9"}}}, {`"2"`, M{"k": "str", "s": []interface{}{"2"}}}}
 	ntr := rc.Pick(60, 400)
 	for t := 0; t < ntr; t++ {
 		// universe: 2-3 numbers and 1-2 strings; strings here are spelled so that spelling order vs numbers is interesting ("1x" is not in the alphabet: use a, b, ab)
 		var u []M
 		var lits []string
-		for _, i := range rng.Perm(len(numLits))[:2+rng.Intn(2)] {
+		numPick, strPick := rng.Perm(len(numLits))[:2+rng.Intn(2)], rng.Perm(len(strLits))[:1+rng.Intn(2)]
+		if t < 8 {
+			// strings that SPELL numbers among numbers that lie between them: "10" < "9" as strings, 9 < 9.5 < 10 < 11 as numbers -
+			// an implementation that compared such a string with a number by value would have no consistent order
+			numPick = [][]int{{4}, {4, 5}, {0, 4}, {1, 4, 5}, {4, 3}, {0, 1, 4}, {5, 4}, {2, 4}}[t]
+			strPick = [][]int{{5, 6}, {5, 6}, {5, 6}, {6, 5}, {5, 6, 7}, {6, 5}, {7, 5, 6}, {6, 5}}[t]
+		}
+		for _, i := range numPick {
 			u = append(u, numLits[i].v)
 			lits = append(lits, numLits[i].lit)
 		}
-		for _, i := range rng.Perm(len(strLits))[:1+rng.Intn(2)] {
+		for _, i := range strPick {
 			u = append(u, strLits[i].v)
 			lits = append(lits, strLits[i].lit)
 		}
 		n := len(u)
 		var sorts, cmpsT []M
-		for k := 0; k < 3; k++ {
+		nperm := 3
+		if t < 8 {
+			nperm = 6
+		}
+		for k := 0; k < nperm; k++ {
 			perm := rng.Perm(n)
 			var inp []int
 			var items []string
